@@ -240,4 +240,396 @@ inductive NReach : Neg → Prop
 def wantValidated (reqs : List (Bool × Nat)) : Bool := reqs.any (·.1)
 def wantChunk (reqs : List (Bool × Nat)) : Option Nat := reqs.foldl (fun m r => negChunk m r.2) none
 
+/-! ## Part B: buffers as decorator trees, every `Buffer` method
+
+One program works on one blob: `d` is the content its digest describes.  A
+stream-backed base buffer delivers that content (`good`), other bytes
+(`corrupt`: wrong hash or wrong length, what the validators turn into the
+Source's code 13), or fails with an I/O error of code `k`.  Whole-stream
+semantics: what a consumer observes after reading to the end; partial data in
+front of an error is not part of the observation.
+
+`dg` is the `digest` field of the Go struct: `some size`, or `none` for the
+zero `digest.Digest` (any use of which panics with an index out of range).
+
+Tasks have ids (`t`) and a result (`none` = nil, `some k` = an error of code
+`k`).  Each result carries the set of tasks that are *guaranteed* complete when
+the call returns (`waited`): the call executed `<-task.completion` itself, or
+obtained its result from a call that did. -/
+
+inductive Quality
+  | good | corrupt | ioerr (k : Nat)
+deriving DecidableEq, Repr
+
+/-- what the goroutine owning the other handle of a stream clone does with it -/
+inductive Sib
+  | discard | read
+deriving DecidableEq, Repr
+
+inductive Out
+  | ok (d : List Nat) (sound : Bool)   -- `sound = false`: bytes that do not match the digest
+  | err (k : Nat)
+  | panic
+deriving DecidableEq, Repr
+
+inductive Buf
+  | err (k : Nat)                                            -- errorBuffer
+  | bytes (d : List Nat)                                     -- validatedByteSliceBuffer, protoBuffer
+  | readerAt (d : List Nat)                                  -- validatedReaderBuffer
+  | stream (chunked : Bool) (size : Nat) (q : Quality) (d : List Nat)  -- casReaderBuffer / casChunkReaderBuffer
+  | cloned (base : Buf) (dg : Option Nat) (sibs : List Sib)  -- one handle of a casClonedBuffer
+  | task (base : Buf) (dg : Option Nat) (t : Nat) (r : Option Nat)   -- casBufferWithBackgroundTask
+  | eh (base : Buf) (dg : Option Nat)                        -- casErrorHandlingBuffer
+deriving Repr
+
+/-- the error handler of the programs: translates every error -/
+def tr (k : Nat) : Nat := k + 20
+
+def streamRes (q : Quality) (d : List Nat) (validated : Bool) : Out :=
+  match q with
+  | .good => .ok d true
+  | .corrupt => if validated then .err 13 else .ok d false
+  | .ioerr k => .err k
+
+/-- `newCASValidating{Chunk,}Reader` on top of an unvalidated stream -/
+def validate : Out → Out
+  | .ok _ false => .err 13
+  | o => o
+
+def trOut : Out → Out
+  | .err k => .err (tr k)
+  | o => o
+
+def Out.isOk : Out → Bool
+  | .ok _ _ => true
+  | _ => false
+
+/-- A stream (chunk reader or reader) drained to its end and closed. -/
+structure SR where
+  res : Out
+  /-- tasks complete when the successful end of stream is returned ([] when `res` is an error) -/
+  wTerm : List Nat := []
+  /-- tasks complete when `Close` returns, whatever was read -/
+  wClose : List Nat := []
+  /-- readers: the error `Close` returns -/
+  closeErr : Option Nat := none
+deriving Repr
+
+def SR.panic : SR := { res := .panic }
+
+def wantsValidation (v : Bool) (sibs : List Sib) : Bool := v || sibs.any (· == .read)
+
+/-- `ToChunkReader(0, _)` (`v`) / `toUnvalidatedChunkReader(0, _)` (`!v`) -/
+def cr : Buf → Bool → SR
+  | .err k, _ => { res := .err k }
+  | .bytes d, _ => { res := .ok d true }
+  | .readerAt d, _ => { res := .ok d true }
+  | .stream _ _ q d, v => { res := streamRes q d v }
+  | .cloned base _ sibs, v =>
+    -- the multiplexed reader: the result sequence of the negotiated base reader;
+    -- this handle's Close need not be the last one
+    let r := cr base (wantsValidation v sibs)
+    { res := r.res, wTerm := r.wTerm }
+  | .task base _ t r, v =>
+    let b := cr base v
+    match b.res with
+    | .panic => SR.panic
+    | .err k => { res := .err k, wClose := b.wClose ++ [t] }
+    | .ok d s =>
+      -- at EOF: Close (which waits), then the task's error or EOF
+      match r with
+      | some e => { res := .err e, wClose := b.wClose ++ [t] }
+      | none => { res := .ok d s, wTerm := b.wTerm ++ b.wClose ++ [t], wClose := b.wClose ++ [t] }
+  | .eh base dg, v =>
+    let b := cr base false
+    let u : SR := { b with res := trOut b.res }
+    if !v then u else
+    match dg with
+    | none => SR.panic
+    | some _ =>
+      let res := validate u.res
+      { res := res, wTerm := if res.isOk then u.wTerm else [], wClose := u.wClose }
+
+/-- `ToReader()` (`v`) / `toUnvalidatedReader(0)` (`!v`) -/
+def rd : Buf → Bool → SR
+  | .err k, _ => { res := .err k }
+  | .bytes d, _ => { res := .ok d true }
+  | .readerAt d, _ => { res := .ok d true }
+  | .stream _ _ q d, v => { res := streamRes q d v }
+  | .cloned base dg sibs, v => cr (.cloned base dg sibs) v
+  | .task base _ t r, v =>
+    -- Read is not decorated; Close waits and reports
+    let b := rd base v
+    match b.res with
+    | .panic => SR.panic
+    | _ => { res := b.res, wTerm := b.wTerm, wClose := b.wClose ++ [t],
+             closeErr := match b.closeErr with | some e => some e | none => r }
+  | .eh base dg, v =>
+    let b := rd base false
+    let u : SR := { b with res := trOut b.res }
+    if !v then u else
+    match dg with
+    | none => SR.panic
+    | some _ =>
+      let res := validate u.res
+      { res := res, wTerm := if res.isOk then u.wTerm else [], wClose := u.wClose, closeErr := u.closeErr }
+
+/-- What one method call (for readers and chunk readers: create, drain or not, Close) observes. -/
+structure MOut where
+  res : Out
+  /-- `ReadAt`: `io.EOF` came with the bytes -/
+  eof : Bool := false
+  closeErr : Option Nat := none
+  wTerm : List Nat := []
+  /-- tasks guaranteed complete when the call has returned -/
+  waited : List Nat := []
+deriving Repr
+
+def MOut.panic : MOut := { res := .panic }
+/-- a call without a result value (`Discard`, `Close`) -/
+def unit : Out := .ok [] true
+
+/-- the decorator's `<-b.task.completion; if err != nil {return err}; return b.task.err` -/
+def afterTask (b : MOut) (t : Nat) (r : Option Nat) : MOut :=
+  match b.res with
+  | .panic => MOut.panic
+  | .err k => { b with res := .err k, waited := b.waited ++ [t] }
+  | .ok d s =>
+    if b.eof then { b with waited := b.waited ++ [t] }   -- ReadAt: io.EOF is returned as the error
+    else match r with
+      | some e => { b with res := .err e, waited := b.waited ++ [t] }
+      | none => { b with res := .ok d s, waited := b.waited ++ [t] }
+
+def trM (b : MOut) : MOut := { b with res := trOut b.res }
+
+def ofSR (r : SR) : MOut :=
+  { res := r.res, wTerm := r.wTerm, waited := (if r.res.isOk then r.wTerm else []) ++ r.wClose, closeErr := r.closeErr }
+
+def tooLarge (size max : Nat) : Bool := size > max
+
+def toByteSlice : Buf → Nat → MOut
+  | .err k, _ => { res := .err k }
+  | .bytes d, max => if tooLarge d.length max then { res := .err 3 } else { res := .ok d true }
+  | .readerAt d, max => if tooLarge d.length max then { res := .err 3 } else { res := .ok d true }
+  | .stream _ size q d, max => if tooLarge size max then { res := .err 3 } else { res := streamRes q d true }
+  | .cloned base dg sibs, max =>
+    -- toByteSliceViaChunkReader(b.toChunkReader(true, ..), b.digest, max): reader first, deferred Close
+    let r := cr (.cloned base dg sibs) true
+    match r.res, dg with
+    | .panic, _ => MOut.panic
+    | _, none => MOut.panic
+    | _, some n => if tooLarge n max then { res := .err 3 } else ofSR r
+  | .task base _ t r, max => afterTask (toByteSlice base max) t r
+  | .eh base _, max => trM (toByteSlice base max)
+
+/-- every implementation is `ToByteSlice` followed by unmarshalling, or delegates -/
+def toProto (b : Buf) (max : Nat) : MOut := toByteSlice b max
+
+def slice (d : List Nat) (off len : Nat) : MOut :=
+  let s := (d.drop off).take len
+  { res := .ok s true, eof := s.length < len }
+
+def sliceOut (o : Out) (off len : Nat) : MOut :=
+  match o with
+  | .ok d true => slice d off len
+  | o => { res := o }
+
+def readAt : Buf → Nat → Nat → MOut
+  | .err k, _, _ => { res := .err k }
+  | .bytes d, off, len => slice d off len
+  | .readerAt d, off, len => slice d off len
+  | .stream _ _ q d, off, len => sliceOut (streamRes q d true) off len
+  | .cloned base dg sibs, off, len =>
+    let r := cr (.cloned base dg sibs) true
+    let m := sliceOut r.res off len
+    { m with wTerm := r.wTerm, waited := (if r.res.isOk then r.wTerm else []) ++ r.wClose }
+  | .task base _ t r, off, len => afterTask (readAt base off len) t r
+  | .eh base _, off, len => trM (readAt base off len)
+
+def intoWriter : Buf → MOut
+  | .err k => { res := .err k }
+  | .bytes d => { res := .ok d true }
+  | .readerAt d => { res := .ok d true }
+  | .stream _ _ q d => { res := streamRes q d true }
+  | .cloned base dg sibs => ofSR (cr (.cloned base dg sibs) true)
+  | .task base _ t r => afterTask (intoWriter base) t r
+  | .eh base dg => ofSR (cr (.eh base dg) true)
+
+def discard : Buf → MOut
+  | .cloned _ _ _ => { res := unit }           -- toChunkReader(false, ..).Close()
+  | .task base _ t _ =>
+    match (discard base).res with
+    | .panic => MOut.panic
+    | _ => { res := unit, waited := (discard base).waited ++ [t] }
+  | .eh base _ => discard base
+  | _ => { res := unit }
+
+def dropOut (o : Out) (off : Nat) : Out :=
+  match o with
+  | .ok d s => .ok (d.drop off) s
+  | o => o
+
+/-- `ToChunkReader(off, _)`, read to the end (`all`) or not at all, then `Close` -/
+def toChunkReader (b : Buf) (off : Nat) (all : Bool) : MOut :=
+  let r := cr b true
+  match r.res with
+  | .panic => MOut.panic
+  | _ => if all then { ofSR r with res := dropOut r.res off }
+         else { res := unit, waited := r.wClose }
+
+/-- `ToReader()`, read to the end or not at all, then `Close` -/
+def toReader (b : Buf) (all : Bool) : MOut :=
+  let r := rd b true
+  match r.res with
+  | .panic => MOut.panic
+  | _ => if all then ofSR r else { res := unit, waited := r.wClose, closeErr := r.closeErr }
+
+inductive SizeOut
+  | size (n : Nat)
+  | err (k : Nat)
+  | panic
+deriving DecidableEq, Repr
+
+def getSize : Buf → SizeOut
+  | .err k => .err k
+  | .bytes d => .size d.length
+  | .readerAt d => .size d.length
+  | .stream _ size _ _ => .size size
+  | .cloned _ dg _ | .task _ dg _ _ | .eh _ dg =>
+    match dg with
+    | some n => .size n
+    | none => .panic
+
+/-! ### Programs -/
+
+inductive Kind
+  | err (k : Nat)            -- NewBufferFromError
+  | bytes                    -- NewValidatedBufferFromByteSlice, NewCASBufferFromByteSlice, NewProtoBufferFrom*
+  | readerAt                 -- NewValidatedBufferFromReaderAt
+  | reader (q : Quality)     -- NewCASBufferFromReader
+  | chunks (q : Quality)     -- NewCASBufferFromChunkReader
+deriving DecidableEq, Repr
+
+inductive BufExpr
+  | base (k : Kind)
+  /-- `b1, b2 := e.CloneStream()`: continue with one of them (`side`), a second goroutine owns the other -/
+  | cloneStream (e : BufExpr) (side : Bool) (sib : Sib)
+  /-- `b1, b2 := e.CloneCopy(max)` with `max` large enough -/
+  | cloneCopy (e : BufExpr) (side : Bool)
+  | withTask (e : BufExpr) (r : Option Nat)
+  | withErrorHandler (e : BufExpr)
+deriving Repr
+
+structure Env where
+  /-- the content the digest describes -/
+  d : List Nat
+  /-- `decorateBuffer` passes `digest` and `source` on to the decorated clones (the repair of D1);
+  `false`: the code as pinned, which leaves them zero -/
+  repaired : Bool := true
+deriving Repr
+
+def baseBuf (env : Env) : Kind → Buf
+  | .err k => .err k
+  | .bytes => .bytes env.d
+  | .readerAt => .readerAt env.d
+  | .reader q => .stream false env.d.length q env.d
+  | .chunks q => .stream true env.d.length q env.d
+
+/-- the `digest` the Go constructors copy from the receiver (`b.digest`) -/
+def Buf.dg : Buf → Option Nat
+  | .stream _ size _ _ => some size
+  | .cloned _ dg _ | .task _ dg _ _ | .eh _ dg => dg
+  | _ => none
+
+def Env.decorated (env : Env) (dg : Option Nat) : Option Nat := if env.repaired then dg else none
+
+def cloneStreamB (env : Env) (sib : Sib) : Buf → Buf
+  | .stream c n q d => .cloned (.stream c n q d) (some n) [sib]
+  | .cloned base dg sibs => .cloned base dg (sib :: sibs)
+  | .eh base dg => .cloned (.eh base dg) dg [sib]
+  | .task base dg t r => .task (cloneStreamB env sib base) (env.decorated dg) t r
+  | b => b      -- errorBuffer, byte slice: `return b, b`; reader-at: reference count
+
+/-- `none`: the call panicked -/
+def cloneCopyB (env : Env) (max : Nat) : Buf → Option Buf
+  | .task base dg t r =>
+    match cloneCopyB env max base with
+    | some b' => some (.task b' (env.decorated dg) t r)
+    | none => none
+  | .err k => some (.err k)
+  | .bytes d => some (.bytes d)
+  | .readerAt d => some (.readerAt d)
+  | b =>   -- cloneCopyViaByteSlice
+    match (toByteSlice b max).res with
+    | .ok d _ => some (.bytes d)
+    | .err k => some (.err k)
+    | .panic => none
+
+def withTaskB (t : Nat) (r : Option Nat) : Buf → Buf
+  | .err k => .err k                 -- task(); the error is dropped
+  | .bytes d => match r with | some e => .err e | none => .bytes d
+  | .readerAt d => match r with | some e => .err e | none => .readerAt d
+  | b => .task b b.dg t r
+
+def withErrorHandlerB : Buf → Buf
+  | .err k => .err (tr k)
+  | .bytes d => .bytes d
+  | .readerAt d => .readerAt d
+  | b => .eh b b.dg
+
+def bigMax : Nat := 1000000000
+
+/-- Evaluate a program; tasks are numbered in the order their `WithTask` executes. -/
+def build (env : Env) : BufExpr → Nat → Option (Buf × Nat)
+  | .base k, n => some (baseBuf env k, n)
+  | .cloneStream e _ sib, n =>
+    match build env e n with
+    | some (b, n') => some (cloneStreamB env sib b, n')
+    | none => none
+  | .cloneCopy e _, n =>
+    match build env e n with
+    | some (b, n') => match cloneCopyB env bigMax b with
+      | some b' => some (b', n')
+      | none => none
+    | none => none
+  | .withTask e r, n =>
+    match build env e n with
+    | some (b, n') => some (withTaskB n' r b, n' + 1)
+    | none => none
+  | .withErrorHandler e, n =>
+    match build env e n with
+    | some (b, n') => some (withErrorHandlerB b, n')
+    | none => none
+
+/-- the consumption methods of the `Buffer` interface (the cloning and decorating ones are `BufExpr` nodes) -/
+inductive Method
+  | getSizeBytes
+  | intoWriter
+  | readAt (off len : Nat)
+  | toProto (max : Nat)
+  | toByteSlice (max : Nat)
+  | toChunkReader (off : Nat) (all : Bool)
+  | toReader (all : Bool)
+  | discard
+deriving DecidableEq, Repr
+
+def call (b : Buf) : Method → MOut
+  | .getSizeBytes => match getSize b with
+    | .size n => { res := .ok [n] true }
+    | .err k => { res := .err k }
+    | .panic => MOut.panic
+  | .intoWriter => intoWriter b
+  | .readAt off len => readAt b off len
+  | .toProto max => toProto b max
+  | .toByteSlice max => toByteSlice b max
+  | .toChunkReader off all => toChunkReader b off all
+  | .toReader all => toReader b all
+  | .discard => discard b
+
+/-- run a program and one method on its result; `none` = building the buffer panicked -/
+def exec (env : Env) (e : BufExpr) (m : Method) : Option MOut :=
+  match build env e 0 with
+  | some (b, _) => some (call b m)
+  | none => none
+
 end BB.Mux
